@@ -16,17 +16,18 @@ import (
 )
 
 type Finding struct {
-	Property   string `json:"property"`
-	Obligation string `json:"obligation"`
-	Except     string `json:"except"`
-	What       string `json:"what"`
-	Status     string `json:"status"` // finding | fixed
-	Commit     string `json:"commit,omitempty"`
-	Witness    string `json:"witness,omitempty"`        // Go test file under /verif injected by overlay
-	WitnessPkg string `json:"witness_pkg,omitempty"`    // repository-relative package directory
-	WitnessRun string `json:"witness_run,omitempty"`    // -run pattern
-	WitnessExp string `json:"witness_expect,omitempty"` // substring printed when the defect shows on the real code
-	witnessOut string
+	Property    string `json:"property"`
+	Obligation  string `json:"obligation"`
+	Except      string `json:"except"`
+	What        string `json:"what"`
+	Status      string `json:"status"` // finding | fixed
+	Commit      string `json:"commit,omitempty"`
+	Witness     string `json:"witness,omitempty"`        // Go test file under /verif injected by overlay
+	WitnessPkg  string `json:"witness_pkg,omitempty"`    // repository-relative package directory
+	WitnessRun  string `json:"witness_run,omitempty"`    // -run pattern
+	WitnessExp  string `json:"witness_expect,omitempty"` // substring printed when the defect shows on the real code
+	WitnessRace bool   `json:"witness_race,omitempty"`   // run the witness under the race detector (go test -race, cgo)
+	witnessOut  string
 }
 
 type KnownFindings struct {
@@ -147,7 +148,10 @@ func cmdCheck(args []string) int {
 	var cts []*Contract
 	for _, k := range sortedKeys(g.db.Contracts) {
 		ct := g.db.Contracts[k]
-		if ct.Trusted || !hasProp(ct.Props, *prop) {
+		// a trusted (assumed) contract may still have its body checked for the lock discipline alone
+		// ("opt lockcheck=<property>"): only its lock:* obligations are generated for that property
+		lockOnly := ct.Trusted && ct.Opts["lockcheck"] == *prop
+		if !lockOnly && (ct.Trusted || !hasProp(ct.Props, *prop)) {
 			continue
 		}
 		if *only != "" && !onlyMatch(*only, k) {
@@ -175,6 +179,16 @@ func cmdCheck(args []string) int {
 	var obls []*Obligation
 	for _, ct := range cts {
 		r := g.VerifyFunction(ct)
+		if ct.Trusted {
+			var keep []*Obligation
+			for _, o := range r.Obls {
+				if strings.HasPrefix(o.Kind, "lock:") {
+					o.Props = []string{*prop}
+					keep = append(keep, o)
+				}
+			}
+			r.Obls = keep
+		}
 		results = append(results, r)
 		obls = append(obls, r.Obls...)
 	}
@@ -370,9 +384,16 @@ func runWitness(repo string, f *Finding) string {
 	os.WriteFile(ovFile, data, 0o644)
 	ctx, cancel := context.WithTimeout(context.Background(), 120*time.Second)
 	defer cancel()
-	cmd := exec.CommandContext(ctx, "go", "test", "-overlay", ovFile, "-vet=off", "-tags", "verif", "-count=1", "-v", "-timeout", "60s", "-run", f.WitnessRun, ".")
+	args := []string{"test", "-overlay", ovFile, "-vet=off", "-tags", "verif", "-count=1", "-v", "-timeout", "60s", "-run", f.WitnessRun}
+	if f.WitnessRace {
+		args = append(args, "-race")
+	}
+	cmd := exec.CommandContext(ctx, "go", append(args, ".")...)
 	cmd.Dir = pkgDir
 	cmd.Env = append(os.Environ(), "GOFLAGS=-mod=mod", "GOPROXY=off", "GOSUMDB=off", "GOTOOLCHAIN=local")
+	if f.WitnessRace {
+		cmd.Env = append(cmd.Env, "CGO_ENABLED=1")
+	}
 	out, _ := cmd.CombinedOutput()
 	return string(out)
 }
